@@ -102,6 +102,8 @@ package ecs
 //@        && entityID(i) != old(rowEnt(&w.storage.tables[w.storage.entities[entity.id].table])[w.storage.tables[w.storage.entities[entity.id].table].len-1]).id ==> w.storage.entities[i] == old(w.storage.entities[i])))
 //@   ensures  alive: forall h Entity :: alive(&w.storage.entityPool, h) == old(alive(&w.storage.entityPool, h))
 //@   ensures  locks: w.storage.locks.locks == old(w.storage.locks.locks)
+//@   ensures  ident: tablesIdent(&w.storage)
+//@   ensures  inv: indexInv(&w.storage)
 
 //@ func (*World).add
 //@   serves C01 C09 C10
@@ -122,6 +124,8 @@ package ecs
 //@   ensures  alive: forall h Entity :: alive(&w.storage.entityPool, h) == old(alive(&w.storage.entityPool, h))
 //@   ensures  istarget: forall k int :: 0 <= k && k < len(relations) ==> w.storage.isTarget[relations[k].target.id]
 //@   ensures  locks: w.storage.locks.locks == old(w.storage.locks.locks)
+//@   ensures  ident: tablesIdent(&w.storage)
+//@   ensures  inv: indexInv(&w.storage)
 
 
 //@ func (*World).exchange
@@ -143,6 +147,8 @@ package ecs
 //@   ensures  alive: forall h Entity :: alive(&w.storage.entityPool, h) == old(alive(&w.storage.entityPool, h))
 //@   ensures  istarget: forall k int :: 0 <= k && k < len(relations) ==> w.storage.isTarget[relations[k].target.id]
 //@   ensures  locks: w.storage.locks.locks == old(w.storage.locks.locks)
+//@   ensures  ident: tablesIdent(&w.storage)
+//@   ensures  inv: indexInv(&w.storage)
 
 
 //@ spec func s0len(w *World, t tableID) uint32 := w.storage.tables[t].len
